@@ -106,7 +106,7 @@ def c09_lengths(**p):
         els = ["C", "O", "H"]
         extra = [{"x_coord": 10.0 ** k, "y_coord": -12345.678901, "z_coord": (-1e300 if big else 0.000001), "chg": -15, "rad": 3, "mass": 123456789},
                  {"x_coord": 0.0, "y_coord": 10.0 ** (k // 2), "z_coord": -0.0, "chg": 7},
-                 {"x_coord": 1e22, "y_coord": 0.5, "z_coord": 10.0 ** k, "mass": 2}]
+                 {"x_coord": 1.2345678901234567e19 if k % 2 else 1e22, "y_coord": 0.5 if k % 3 else -9.87654321987654e16, "z_coord": 10.0 ** k, "mass": 2}]
         mol = Mol(els, [None] * 3, [None] * 3, {(0, 1): {"bond_type": 2}, (1, 2): {"bond_type": 10 ** (k % 60)}}, extra)
         for a in range(3):
             for key in ("rad", "mass"):
